@@ -129,7 +129,7 @@ pub fn gen_data(rng: &mut Rng, labels: &[String]) -> GStmt {
     match rng.below(4) {
         0 => GStmt { labels: vec![], mnem: ".fill".into(), ops: vec![if !labels.is_empty() && rng.chance(1, 3) { Op::Lbl(rng.pick(labels).clone()) } else if rng.bool() { Op::ImmU(rng.u16() as u32) } else { Op::ImmU(((-(rng.below(32768) as i32)) as i16 as u16) as u32) }], size: 1 },
         1 => { let n = 1 + rng.below(6) as u32; GStmt { labels: vec![], mnem: ".blkw".into(), ops: vec![Op::ImmU(n)], size: n } }
-        _ => { let n = rng.below(8) as usize; let b: Vec<u8> = (0..n).map(|_| *rng.pick(&[b'a', b'Z', b' ', b'"', b'\\', b'\n', b'\t', b'\r', 0u8, b';', b'#', b'~', b'0'])).collect(); let sz = b.len() as u32 + 1; GStmt { labels: vec![], mnem: ".stringz".into(), ops: vec![Op::Str(b)], size: sz } }
+        _ => { let n = rng.below(8) as usize; let b: Vec<u8> = (0..n).map(|_| *rng.pick(&[b'a', b'\'', b'Z', b' ', b'"', b'\\', b'\n', b'\t', b'\r', 0u8, b';', b'#', b'~', b'0'])).collect(); let sz = b.len() as u32 + 1; GStmt { labels: vec![], mnem: ".stringz".into(), ops: vec![Op::Str(b)], size: sz } }
     }
 }
 
